@@ -611,7 +611,10 @@ def run(ctx, rep):
     check_checkpoint_position(ctx, rep)
     check_constructor_restores(ctx, rep, concrete)
     check_restored_precision(ctx, rep, concrete)
-    check_main_order(ctx, rep)
+    try:
+        check_main_order(ctx, rep)
+    except Unsupported as u:
+        rep.undecided('C17.E', 'main::checkpoint-routing', f"line {getattr(u.node, 'lineno', 0)}", str(u))
     check_iteration_counter(ctx, rep)
     rep.rule('C17.A', "every unconditional restoring statement of a load_state_dict lies on every path to a normal exit (no early return leaves part of the state at its fresh value)")
     rep.rule('C17.O', "a load_state_dict does not overwrite a field of a member object that restores itself from the checkpoint")
